@@ -127,7 +127,12 @@ def generate() -> str:
                     continue
                 prep.append(("other", nm + " = " + t[:60]))
             if isinstance(st, ast.Return) and st.value is not None:
-                F["returns"] = lean_str("the distances read" if src(st.value) == F.get("_sds") else "other: " + src(st.value))
+                m = re.fullmatch(rf"{dt_name}\[(\w+)\]", src(st.value)) if dt_name else None
+                if m and "_sds" not in F:
+                    F["readAt"] = lean_str(f"the {bnames.get(m.group(1), 'other:' + m.group(1))} border")
+                    F["returns"] = lean_str("the distances read")
+                else:
+                    F["returns"] = lean_str("the distances read" if src(st.value) == F.get("_sds") else "other: " + src(st.value))
         F["prep"] = "[" + ", ".join(f"({lean_str(a)}, {lean_str(b)})" for a, b in sorted(prep)) + "]"
         F["borders"] = "[" + ", ".join(f"({lean_str(a)}, {lean_str(b)})" for a, b in sorted(borders)) + "]"
     out = ["/- GENERATED by harness/extract/assd_code.py from /repo's working tree — do not edit. -/",
